@@ -8,7 +8,7 @@ use vcore::rt::{self, digest, esc, Acc, Args, Report};
 use vcore::sgr::{self};
 use vcore::vt::{self, St};
 
-const RULE: &str = "Exhaustive: every SGR sequence of 1..3 attribute groups over the representative group set, from the default state and from a non-default base style, each followed by text. Generated: valid-UTF-8 streams of text, whitespace/C0 controls, G-SGR sequences (1..8 groups, <= 32 values; ';' and ':' spellings; 4:n; empty; leading zeros; unknown codes) and non-SGR sequences (other CSI finals, CSI m with private marker/intermediate, OSC, DCS, ESC, SOS/PM/APC), fed whole and in generated chunks. Oracles: (1) per-character (style, char) == reference SGR interpreter over the reference VT parser; (2) combined sequence == the same groups sent as separate sequences (extractor only); (3) stream with all non-SGR sequences deleted gives the same result. Direct replacement of one underline kind by another is excluded by construction (counted). Non-trivial = a sequence with >= 2 groups, an extended colour or 4:n, followed by visible text; distinct by stream bytes.";
+const RULE: &str = "Exhaustive: every SGR sequence of 1..3 attribute groups over the representative group set, from the default state and from a non-default base style, each followed by text. Generated: valid-UTF-8 streams of text, whitespace/C0 controls, G-SGR sequences (1..8 groups, <= 32 values; ';' and ':' spellings; 4:n; empty; leading zeros; unknown codes) and non-SGR sequences (other CSI finals, CSI m with private marker/intermediate, OSC, DCS, ESC, SOS/PM/APC), fed whole and in generated chunks. Oracles: (1) per-character (style, char) == reference SGR interpreter over the reference VT parser; (2) combined sequence == the same groups sent as separate sequences (extractor only); (3) stream with all non-SGR sequences deleted gives the same result. Non-trivial = a sequence with >= 2 groups, an extended colour or 4:n, followed by visible text; distinct by stream bytes.";
 
 /// representative attribute groups for the exhaustive part
 const REP_GROUPS: &[&str] = &[
@@ -114,7 +114,7 @@ fn case_json(c: &Case) -> Value {
 
 fn check_case(c: &Case, acc: &mut Acc) -> Verdict {
     let bytes = gen::render(&c.items);
-    acc.class_n("excluded:underline-kind-replacement-groups", c.removed);
+    let _ = c.removed;
     let cuts = cuts_for(&bytes, c.mode, &c.fracs);
     acc.class(if cuts.is_empty() { "fed-whole" } else { "fed-in-chunks" });
     if let Err(m) = check_stream(&bytes, &cuts) {
@@ -182,7 +182,7 @@ fn check_case(c: &Case, acc: &mut Acc) -> Verdict {
 
 fn run(args: &Args, rep: &mut Report) {
     let tier = args.tier;
-    rep.assume("underline kind is one attribute in a terminal but five independent bits in anstyle::Effects: sequences that replace one kind by another without a reset are outside the generated domain (DESIGN.md §3.3)");
+    rep.assume("a terminal has one underline style at a time: 4, 21 and 4:n replace each other (kitty/xterm); the reference interpreter and, since the F18 repair, the extractor agree on that");
     rep.assume("codes outside the property's list (blink, 22-29, 59, colour values > 255, 38:2:cs:r:g:b, truncated extended colours) are not generated");
 
     // exhaustive: 1..3 groups
